@@ -533,7 +533,8 @@ func VerifyEvidence(doc *document.Document, evidence *document.ChipAuthEvidence)
 
 	if len(evidence.TermPri) > maxEvidenceFieldLen ||
 		len(evidence.TermPubKey) > maxEvidenceFieldLen ||
-		len(evidence.SmRapdu) > maxEvidenceFieldLen {
+		len(evidence.SmRapdu) > maxEvidenceFieldLen ||
+		len(evidence.SmSsc) > maxEvidenceFieldLen {
 		return nil, fmt.Errorf("[VerifyEvidence] evidence field exceeds maximum length (%d)", maxEvidenceFieldLen)
 	}
 
@@ -581,6 +582,10 @@ func VerifyEvidence(doc *document.Document, evidence *document.ChipAuthEvidence)
 		sscInit.Sub(new(big.Int).SetBytes(evidence.SmSsc), big.NewInt(1))
 	}
 	ssc := make([]byte, len(sm.SSC()))
+	if len(sscInit.Bytes()) > len(ssc) {
+		// NB FillBytes panics if the value doesn't fit
+		return nil, fmt.Errorf("[VerifyEvidence] SmSsc exceeds the SSC size (act:%d, max:%d)", len(sscInit.Bytes()), len(ssc))
+	}
 	sscInit.FillBytes(ssc)
 	if err = sm.SetSSC(ssc); err != nil {
 		return nil, fmt.Errorf("[VerifyEvidence] SetSSC error: %w", err)
